@@ -1042,10 +1042,16 @@ theorem pre_shape (st : St) (tid : Nat) (op : ApiOp) :
   case pLink d s => left; split <;> first | exact bal_ptrLinkSole _ _ _ _ _ | exact bal_ptrAssign _ _ _ _ | simp [bal]
   case pNext d => left; split <;> first | exact bal_ptrAssignEmb _ _ _ _ _ | simp [bal]
   case pNextOf d s => left; split <;> first | exact bal_ptrAssignEmb _ _ _ _ _ | simp [bal]
+  case gNew d tag inl val cap => left; apply bal_append (bal_rel _); split <;> simp [bal]
+  case gEdit d skip nv =>
+    cases skip
+    · right; exact rd _ _ (fun s1 h => by simp only [post, h, if_true]; exact ⟨_, [], rfl, rfl⟩)
+    · left; rfl
 
 /-- without a successful counter read the `post` phase pairs every decrement with its release -/
 theorem post_bal (s1 : St) (tid : Nat) (op : ApiOp) (hw : isWriting s1 tid = false) : bal (post s1 tid op) = true := by
   cases op <;> simp only [post, hw, Bool.false_eq_true, if_false] <;> try rfl
+  case gEdit d skip nv => cases skip <;> rfl
   case vSwap a b =>
     apply bal_append (bal_append (bal_boxAssign _ _ _ _) _) (bal_rel _)
     split
